@@ -386,21 +386,25 @@ Definition parse_toks (ts : list token) : res expr :=
 Definition strip_bt (s : string) : string :=
   if starts_bt s && ends_bt s then substring 1 (String.length s - 2) s else s.
 
-Fixpoint unbt (e : expr) : expr :=
+(* descend = GenC19.unbt_descends_subscript: remove_backticks answers `expr` (not None) for a
+   Subscript, which pymbolic's SubstitutionMapper takes as the replacement -- it then does not
+   look inside the subscript at all *)
+Fixpoint unbt (descend : bool) (e : expr) : expr :=
   match e with
   | EVar x => EVar (strip_bt x)
-  | ENary o l => ENary o (map unbt l)
-  | EBin o a b => EBin o (unbt a) (unbt b)
-  | ENot a => ENot (unbt a)
-  | EIf c t e => EIf (unbt c) (unbt t) (unbt e)
-  | ECall f args kw => ECall (unbt f) (map unbt args) (map (fun kv => (fst kv, unbt (snd kv))) kw)
-  | ESub a i => ESub (unbt a) (unbt i)
-  | ETuple l => ETuple (map unbt l)
+  | ENary o l => ENary o (map (unbt descend) l)
+  | EBin o a b => EBin o (unbt descend a) (unbt descend b)
+  | ENot a => ENot (unbt descend a)
+  | EIf c t e => EIf (unbt descend c) (unbt descend t) (unbt descend e)
+  | ECall f args kw =>
+    ECall (unbt descend f) (map (unbt descend) args) (map (fun kv => (fst kv, unbt descend (snd kv))) kw)
+  | ESub a i => if descend then ESub (unbt descend a) (unbt descend i) else e
+  | ETuple l => ETuple (map (unbt descend) l)
   | _ => e
   end.
 
 Definition parse_tokens (ts : list token) : res expr :=
-  bind (parse_toks (strip ts)) (fun e => Ok (unbt e)).
+  bind (parse_toks (strip ts)) (fun e => Ok (unbt unbt_descends_subscript e)).
 
 Definition parse_string (s : string) : res expr := bind (lex s) parse_tokens.
 
